@@ -71,6 +71,9 @@ Proof.
     induction v as [|x v IH]; [reflexivity|]. unfold vadd in *. cbn [map map2]. rewrite IH. numR. f_equal. lra.
 Qed.
 
+Lemma nth_map_lt {B C} (f : B -> C) (l : list B) i d d' : (i < List.length l)%nat -> nth i (map f l) d = f (nth i l d').
+Proof. revert i; induction l as [|x l IH]; intros [|i] Hi; simpl in *; try lia; auto. apply IH. lia. Qed.
+
 (* ---- the adaptor ------------------------------------------------------------------------------------------------- *)
 Section Adaptor.
   Context {L : Type}.
@@ -114,7 +117,7 @@ Section Adaptor.
     sat_all (mf_cons ops l k) (List.concat S).
   (* bounds + constraints of the wrapped device *)
   Definition dev_feasible (t : list R) : Prop := total_ok ops l t.
-  Definition producer : bool := existsb (fun lh : R * R => fst lh <? 0)%num b.
+  Definition producer : bool := existsb (fun lh : R * R => fst lh <? n0)%num b.
   (* every conduit flow has the device's direction *)
   Definition direction_ok (S : list (list R)) : Prop :=
     forall r i, (r < k)%nat -> (i < n)%nat -> if producer then entry S r i <= 0 else 0 <= entry S r i.
@@ -127,7 +130,7 @@ Section Adaptor.
   Proof.
     unfold producer. split.
     - intros Hf lh Hin. destruct (Rle_dec 0 (fst lh)) as [Hle|Hnle]; [exact Hle|]. exfalso.
-      assert (Ht : existsb (fun lh : R * R => fst lh <? 0)%num b = true).
+      assert (Ht : existsb (fun lh : R * R => fst lh <? n0)%num b = true).
       { apply existsb_exists. exists lh. split; [exact Hin|]. unfold nltb. numR. apply negb_true_iff. apply Rleb_false. lra. }
       congruence.
     - intros Hall. apply not_true_is_false. intros Ht. apply existsb_exists in Ht. destruct Ht as (lh & Hin & Hlt).
@@ -138,11 +141,9 @@ Section Adaptor.
     (producer = true -> lo (conduit_bounds b) i = lo b i /\ hi (conduit_bounds b) i = 0) /\
     (producer = false -> lo (conduit_bounds b) i = 0 /\ hi (conduit_bounds b) i = hi b i).
   Proof.
-    intros Hi. unfold conduit_bounds. fold producer. unfold lo, hi. split; intros ->.
-    - rewrite (nth_indep _ _ ((fun lh : R * R => (fst lh, n0)) (n0, n0))) by (rewrite map_length; exact Hi).
-      rewrite map_nth. cbn [fst snd]. split; reflexivity.
-    - rewrite (nth_indep _ _ ((fun lh : R * R => (n0, snd lh)) (n0, n0))) by (rewrite map_length; exact Hi).
-      rewrite map_nth. cbn [fst snd]. split; reflexivity.
+    intros Hi. unfold conduit_bounds. change (existsb (fun lh : R * R => (fst lh <? n0)%num) b) with producer. unfold lo, hi. split; intros ->.
+    - rewrite (nth_map_lt (fun lh : R * R => (fst lh, n0)) b i _ (n0, n0) Hi). cbn [fst snd]. split; reflexivity.
+    - rewrite (nth_map_lt (fun lh : R * R => (n0, snd lh)) b i _ (n0, n0) Hi). cbn [fst snd]. split; reflexivity.
   Qed.
 
   Lemma entry_in_col S r i : (r < List.length S)%nat -> In (entry S r i) (col i S).
@@ -159,7 +160,7 @@ Section Adaptor.
     intros (Hb & Hlh & Hprod & Hcons) [HS HF] Hn. unfold mf_feasible, dev_feasible.
     assert (Hlen : List.length (List.concat S) = (k * n)%nat).
     { rewrite <- HS. clear HS. induction HF as [|row S Hrow _ IH]; [reflexivity|]. cbn [List.concat List.length]. rewrite app_length, IH, Hrow. lia. }
-    rewrite (mf_cons_sat ops l k _ Hlen). unfold reshape. rewrite <- HS at 2. rewrite chunk_concat by auto.
+    rewrite (mf_cons_sat ops l k _ Hlen). unfold reshape. replace (chunk k n (List.concat S)) with S by (rewrite <- HS; symmetry; apply chunk_concat; auto).
     unfold total_ok.
     assert (Htot : forall i, (i < n)%nat -> nth i (colsum n S) 0 = vsum (col i S)) by (intros i Hi; now apply nth_colsum).
     split.
@@ -183,7 +184,7 @@ Section Adaptor.
 
   Lemma first_conduit_shaped t : (1 <= k)%nat -> List.length t = n -> shaped_kn (first_conduit t).
   Proof.
-    intros Hk Ht. split; [unfold first_conduit; cbn [List.length]; rewrite repeat_length; lia|].
+    intros Hk Ht. split; [unfold first_conduit; change (S (List.length (repeat (zeros (A:=R) n) (k - 1))) = k); rewrite repeat_length; lia|].
     constructor; [exact Ht|]. apply Forall_forall. intros row Hrow. apply repeat_spec in Hrow. subst. apply zeros_length.
   Qed.
 
@@ -192,7 +193,7 @@ Section Adaptor.
     unfold entry, first_conduit. destruct r as [|r]; [reflexivity|]. cbn [nth].
     destruct (Nat.lt_ge_cases r (k - 1)) as [Hlt|Hge].
     - rewrite (nth_indep _ _ (zeros n)) by (rewrite repeat_length; lia). rewrite repeat_nth by lia. apply nth_zeros.
-    - rewrite nth_overflow by (rewrite repeat_length; lia). now destruct i.
+    - rewrite (nth_overflow (repeat (zeros (A:=R) n) (k - 1)) []) by (rewrite repeat_length; lia). now destruct i.
   Qed.
 
   Theorem same_attainable_costs : one_directional -> (1 <= k)%nat -> (0 < n)%nat ->
